@@ -60,6 +60,18 @@ class Builder:
     def coin(self, num=1, den=2):
         return self.d(st.integers(0, den - 1)) < num
 
+    def stricter(self, t, vals, top_ok=True):
+        if t[0] == "nn":
+            return ("nn", self.stricter(t[1], vals, False))
+        if top_ok and vals and all(x is not None for x in vals) and self.coin():
+            return ("nn", self.stricter(t, vals, False))
+        if t[0] == "list":
+            if all(isinstance(x, list) for x in vals):
+                items = [i for x in vals for i in x]
+                return ("list", self.stricter(t[1], items, bool(items)))
+            return t
+        return t
+
     # ---- values
     def new_var(self, type_str, value, has_value=True, default=None, has_default=False):
         name = "%s%d" % (self.var_prefix, len(self.vars))
@@ -85,6 +97,9 @@ class Builder:
         if self.use_variables and t[0] == "nn" and "argument" in self.null_hazards and self.coin(1, 5):
             self.features.add("null-variable-with-default-into-non-null-argument")
             return "$" + self.new_var(GS.show_t(t[1]), None, True, GS.gen_nonnull(self.d, self.spec, t, 1), True)
+        deep = t[0] == "nn" and t[1][0] == "list" and self.use_variables and v is not None and self.coin()
+        if deep:
+            k = 1   # non-null at both ends of a list type: the interesting positions for stricter variable types
         if self.use_variables and k in (1, 2, 3):
             # whole-argument variable of exactly the argument's type
             has_default = self.coin(1, 4)
@@ -98,7 +113,16 @@ class Builder:
                 provide = self.coin(3, 4)
             if v is None and (t[0] == "nn"):
                 provide = True
-            name = self.new_var(arg["type"], v, provide, default, has_default)
+            vt = arg["type"]
+            if deep or self.coin(1, 3):
+                # a variable of a *stricter* type than the position (non-null added at some levels) is allowed there
+                # (AreTypesCompatible); only at levels where neither the value nor the default is null
+                vals = ([v] if provide else []) + ([default] if has_default else [])
+                st_t = self.stricter(t, vals, provide or has_default)
+                if st_t != t:
+                    self.features.add("stricter-variable-type")
+                    vt = GS.show_t(st_t)
+            name = self.new_var(vt, v, provide, default, has_default)
             return "$" + name
         if self.use_variables and k == 4 and isinstance(v, list) and v and t[0] != "nn":
             # variable nested inside a list literal (item type)
